@@ -143,6 +143,12 @@ class Ctx:
             return
         self.violations.append((key, what, replay))
 
+    def require(self, cond, what):
+        """A monitor that has gone blind must not report success."""
+        if not cond and not self.violations:
+            # (with violations on record the shortfall is most likely their consequence: they are reported instead)
+            raise HarnessError("the monitor did not observe what it is built to observe: " + what)
+
     def inconcl(self, note):
         self.inconclusive += 1
         if len(self.inconclusive_notes) < 10:
